@@ -155,10 +155,12 @@ def _thorough(run, prop, repo):
 
     variants = selftest.load(prop)
     seeded = selftest.load_seeded(prop)
+    refactors = selftest.load_benign_corpus(prop)
     res = []
-    with cf.ProcessPoolExecutor(max_workers=min(16, max(1, len(variants) + len(seeded)))) as ex:
+    with cf.ProcessPoolExecutor(max_workers=min(16, max(1, len(variants) + len(seeded) + len(refactors)))) as ex:
         futs = [ex.submit(selftest.run_variant, prop, v, repo) for v in variants]
         futs += [ex.submit(selftest.run_seeded, prop, s, repo) for s in seeded]
+        futs += [ex.submit(selftest.run_benign_corpus, prop, b, repo) for b in refactors]
         for fu in futs:
             try:
                 res.append(fu.result())
@@ -167,7 +169,9 @@ def _thorough(run, prop, repo):
     m = [r for r in res if r["kind"] == "mutant"]
     b = [r for r in res if r["kind"] == "benign"]
     sd = [r for r in res if r["kind"] == "seeded"]
+    rf = [r for r in res if r["kind"] == "refactor"]
     summary = {
+        "refactors": len(rf), "refactors_silent": sum(r["status"] == "silent" for r in rf),
         "mutants": len(m), "killed": sum(r["status"] == "killed" for r in m),
         "benign": len(b), "silent": sum(r["status"] == "silent" for r in b),
         "seeded_changes": len(sd), "seeded_caught": sum(r["status"] == "killed" for r in sd),
@@ -177,7 +181,7 @@ def _thorough(run, prop, repo):
     }
     run.extra["selftest"] = summary
     print(f"SELFTEST {prop}: mutants {summary['killed']}/{summary['mutants']} killed, benign {summary['silent']}/{summary['benign']} silent, "
-          f"seeded changes {summary['seeded_caught']}/{summary['seeded_changes']} reported")
+          f"seeded changes {summary['seeded_caught']}/{summary['seeded_changes']} reported, behaviour-preserving refactors {summary['refactors_silent']}/{summary['refactors']} silent")
     for i in summary["issues"]:
         print(f"  SELFTEST-ISSUE {prop} {i['id']} [{i['kind']}] -> {i['status']} {i.get('why') or ''}")
 
